@@ -127,6 +127,18 @@ def check_case(rec, case):
             if not o.ok:
                 report_failure(rec, o, 'pda_accepts_word', word=w, limit=case['limit'])
                 break
+        if case.get('requery') and len(RP[0]) >= 2:
+            # the same OBJECT after an in-place change (acceptance toggled, a move dropped)
+            q = sorted(P.Q)[-1]
+            P.F ^= {q}
+            keys = sorted(k for k in P.delta if P.delta[k])
+            if keys:
+                P.delta[keys[0]].pop()
+            for w in words[:16]:
+                o = call(pa.pda_accepts_word, P, w)
+                if not o.ok:
+                    report_failure(rec, o, 'pda_accepts_word', word=w, limit=case['limit'], after_in_place_change=True)
+                    break
     finally:
         GambaTools.pda_epsilon_closure_max_iterations = old
 
@@ -161,7 +173,7 @@ def gen_cases(rec, rng, tier):
         lim = rng.choice(limits)
         yield {'cls': 'random_pda', 'ref': RP, 'n': n if lim <= 50 else 3, 'limit': lim, 'eps': rng.choice(['', '_', 'ε'])}
         lim2 = rng.choice([l for l in limits if l != lim and l <= 50])
-        yield {'cls': 'random_pda', 'ref': RP, 'n': n, 'limit': lim2, 'eps': ''}
+        yield {'cls': 'random_pda', 'ref': RP, 'n': n, 'limit': lim2, 'eps': '', 'requery': True}
 
 
 def run(rec, rng, tier):
